@@ -2,15 +2,17 @@
 (* Generator configurations of HO.tla (direction A). *)
 EXTENDS Integers, Sequences, FiniteSets, TLC
 
-CONSTANTS MaxInner, MaxSteps, MaxPerSrc, Cuts, InstSetName
+CONSTANTS MaxInner, MaxSteps, MaxPerSrc, Cuts, InstSetName, TailSetName
 
 I(op, g) == [op |-> op, g |-> g]
 Flat == {I("MergeAll", "MergeAll"), I("MergeAll", "MergeMap"), I("ConcatAll", "ConcatAll"), I("ConcatAll", "FlatMap")}
 Coll == {I("CombineLatestAll", "CombineLatestAll"), I("ZipAll", "ZipAll")}
 InstSet == CASE InstSetName = "flat" -> Flat [] InstSetName = "collecting" -> Coll [] OTHER -> Flat \cup Coll
 
-VARIABLES m, phase, closed, unsub, log, h, sent, ost, octx, intro, ist, nsub, last, q, blk
-M == INSTANCE HO WITH HInsts <- InstSet
+TailSet == IF TailSetName = "cuts" THEN {"Take1", "Throw1"} ELSE {"none"}
+
+VARIABLES m, tail, phase, closed, unsub, log, h, sent, ost, octx, intro, ist, nsub, last, q, blk
+M == INSTANCE HO WITH HInsts <- InstSet, Tails <- TailSet
 Spec == M!Spec
 Grammar == M!Grammar
 ClosedReleasesAll == M!ClosedReleasesAll
